@@ -43,6 +43,34 @@ def run(ctx):
     rng.shuffle(amb)
     for c in amb[:1500 if ctx.quick else 30000]:
         cases.append((2 if rng.random() < 0.7 else 3, "a", c["text"]))
+    # distinct spellings of equal length and equal table hash (TextElementTable's hash, transcribed in C18.py), in every lexeme category:
+    # the lexeme a token refers to is found by hash, length AND bytes - a table that answers with the earlier of two colliding spellings
+    # makes the tree write back another program (seeded change C03-d)
+    from .C18 import pjw
+    import itertools as _it
+    groups = {}
+    for w in ("".join(t) for n_ in (2, 3) for t in _it.product("abcdefghijklmnopqrstuvwxyz_", repeat=n_)):
+        groups.setdefault((len(w), pjw(w.encode())), []).append(w)
+    idpairs = [g[:2] for g in groups.values() if len(g) > 1 and not any(x in ("do", "if", "for", "int") for x in g[:2])]
+    rng.shuffle(idpairs)
+    hexg = {}
+    for v in range(0x100):
+        w = "0x%02X" % v
+        hexg.setdefault(pjw(w.encode()), []).append(w)
+    hexpairs = [g[:2] for g in hexg.values() if len(g) > 1]
+    strg = {}
+    for t in _it.product("0123456789AB", repeat=2):
+        w = '"%s"' % "".join(t)
+        strg.setdefault(pjw(w.encode()), []).append(w)
+    strpairs = [g[:2] for g in strg.values() if len(g) > 1]
+    for a, b in idpairs[:60 if ctx.quick else 2000]:
+        cases.append((2, "a", "int %s , %s ; void f ( int z ) { %s = %s + z ; if ( %s > %s ) %s ++ ; }" % (a, b, b, a, a, b, b)))
+        cases.append((2, "e", "%s * 2 + %s" % (a, b)))
+    for a, b in hexpairs[:40]:
+        cases.append((2, "a", "int v [ ] = { %s , %s , %s , %s } ;" % (a, b, b, a)))
+    for a, b in strpairs[:40]:
+        cases.append((2, "s", "g ( %s , %s , %s ) ;" % (a, b, a)))
+    ctx.notes["colliding_spelling_pairs"] = {"identifiers": len(idpairs), "hex_constants": len(hexpairs), "string_literals": len(strpairs)}
     # MALFORMED inputs: the property speaks of "every input that parses without diagnostics" - a malformed text that parses without
     # diagnostics and comes back with tokens missing was accepted silently (C01: "malformed input is answered with diagnostics")
     base = [(c, t) for c, t in corpus() if 'R"' not in t]
